@@ -83,7 +83,7 @@ func plan0(prop, tier string) []phase {
 		return []phase{{Part: "", Race: false, Runs: 12000000, MaxWall: 25 * time.Minute}}
 	case "C05":
 		if q {
-			return []phase{{Part: "", Race: false, Runs: 5000, MaxWall: 60 * time.Second}, {Part: "", Race: true, Runs: 2000, MaxWall: 100 * time.Second}}
+			return []phase{{Part: "", Race: false, Runs: 8000, MaxWall: 70 * time.Second}, {Part: "", Race: true, Runs: 3000, MaxWall: 110 * time.Second}}
 		}
 		return []phase{{Part: "", Race: false, Runs: 600000, MaxWall: 12 * time.Minute}, {Part: "", Race: true, Runs: 250000, MaxWall: 18 * time.Minute}}
 	case "C16":
@@ -326,6 +326,12 @@ type foundAt struct {
 	found
 	race bool
 	run  uint64
+	// the range of runs the worker process was given when it found the
+	// violation (absolute run numbers): re-running it in a fresh process repeats
+	// that process's whole history (and goes on to the end of the range, since a
+	// violation that depends on the garbage collector may show a few runs later)
+	from, to uint64
+	part     string
 }
 
 func gorace(prefix string) string {
@@ -500,7 +506,7 @@ func runPhase(b *builds, prop string, ph phase, seed uint64) (*phaseResult, erro
 						res.samples = append(res.samples, rep.Samples...)
 					}
 					for _, f := range rep.Found {
-						res.found = append(res.found, foundAt{f, ph.Race, ph.Base + rep.Next - 1})
+						res.found = append(res.found, foundAt{f, ph.Race, ph.Base + rep.Next - 1, ph.Base + from, ph.Base + j.to, ph.Part})
 					}
 					if len(res.found) >= maxViolations {
 						stop = true
@@ -583,6 +589,35 @@ type replayFile struct {
 	Original  json.RawMessage `json:"original,omitempty"`
 	Trace     []string        `json:"trace,omitempty"`
 	All       []violation     `json:"all_violations,omitempty"`
+	// Batch is set when the violation depends on something the scenario alone
+	// does not determine (the code under test consults map iteration order, the
+	// garbage collector, addresses ...): the replay then re-runs the whole range
+	// of runs of the worker process that found it, several times if need be.
+	Batch *batchRef `json:"batch,omitempty"`
+	Note  string    `json:"note,omitempty"`
+}
+
+type batchRef struct {
+	Part string `json:"part"`
+	From uint64 `json:"from"`
+	To   uint64 `json:"to"`
+}
+
+// batchShows re-runs the runs [from,to) in fresh worker processes (up to tries
+// times) and reports whether a violation of the class shows up again.
+func batchShows(b *builds, prop string, race bool, seed uint64, br batchRef, class string, tries int) (bool, string) {
+	for try := 0; try < tries; try++ {
+		rep, err := runWorker(b, prop, phase{Part: br.Part, Race: race}, seed, br.From, br.To, 900000+try, "-no-shrink")
+		if err != nil {
+			return false, err.Error()
+		}
+		for _, g := range rep.Found {
+			if g.Viol.Class == class {
+				return true, g.Viol.Detail
+			}
+		}
+	}
+	return false, ""
 }
 
 // replayOnce runs a replay file in a fresh worker process.
@@ -712,6 +747,27 @@ func cmdCheck(prop, tier string, phases []phase) int {
 				ok = code == 1 && strings.Contains(out, "class="+f.Viol.Class)
 			}
 			f.Confirmed = false
+		}
+		if !ok {
+			// Not reproducible from the scenario alone. If the code under test consults
+			// something outside its inputs (map iteration order, addresses, the garbage
+			// collector), the whole history of the worker process may still bring the
+			// violation back: re-run exactly the runs that process had executed.
+			br := batchRef{Part: f.part, From: f.from, To: f.to}
+			if shows, _ := batchShows(b, prop, f.race, seed, br, f.Viol.Class, 6); shows {
+				ok = true
+				rf.Batch, rf.Minimised, rf.Trace = &br, false, nil
+				rf.Scenario = f.Original
+				if len(rf.Scenario) == 0 {
+					rf.Scenario = f.Minimised
+				}
+				rf.Note = "the violation does not follow from this scenario alone: the code under test depends on something outside its inputs (map iteration order, addresses, garbage collection ...). Replaying re-runs the worker's whole range of runs, up to five times."
+				data, _ = json.MarshalIndent(&rf, "", " ")
+				if err := os.WriteFile(path, data, 0o644); err != nil {
+					die("%v", err)
+				}
+				f.Confirmed = false
+			}
 		}
 		if !ok {
 			// observed in the batch, not reproducible from its replay file: never
@@ -851,6 +907,19 @@ func cmdReplay(path string) int {
 	b := prepare("replay", rf.Race)
 	defer cleanup()
 	abs, _ := filepath.Abs(path)
+	if rf.Batch != nil {
+		shows, detail := batchShows(b, rf.Property, rf.Race, rf.Seed, *rf.Batch, rf.Class, 5)
+		if shows {
+			fmt.Printf("violation kind=%s class=%s: %s\n(re-ran runs [%d,%d) of seed %d)\n", rf.Kind, rf.Class, detail, rf.Batch.From, rf.Batch.To, rf.Seed)
+			fmt.Printf("VIOLATION property=%s replay=%s\n", rf.Property, abs)
+			return 1
+		}
+		if detail != "" {
+			die("replay failed: %s", detail)
+		}
+		fmt.Printf("xpcheck: %s no longer fails on the current tree (5 re-runs of runs [%d,%d))\n", path, rf.Batch.From, rf.Batch.To)
+		return 0
+	}
 	code, out := replayOnce(b, abs, rf.Race, true)
 	fmt.Print(out)
 	switch code {
